@@ -40,7 +40,9 @@ static bool in_call = false;      // inside a public Watchdog operation
 static pplv::Journal J(1);
 static std::string jbuf;
 
-static void emit(const std::string& s) { jbuf += s; jbuf.push_back('\n'); }
+static bool unbuffered = false;    // negative-delay cases may abort at any moment: lose nothing
+static void flush_j();
+static void emit(const std::string& s) { jbuf += s; jbuf.push_back('\n'); if (unbuffered) flush_j(); }
 static void flush_j() {
   const char* p = jbuf.data(); size_t n = jbuf.size();
   while (n) { ssize_t w = ::write(1, p, n); if (w <= 0) break; p += w; n -= (size_t)w; }
@@ -367,6 +369,7 @@ int main(int argc, char** argv) {
     } else if (b < R + E + N) {
       long i = b - R - E;
       pplv::Rng r((uint64_t)seed * 9000011ull + (uint64_t)i);
+      unbuffered = true;
       emit("case " + S(200000 + i) + " neg");
       reset_clock();
       long neg = -(long)r.range(1, 250);
